@@ -164,46 +164,61 @@ def reconnected (l : FLink F) (now : Nat) : FLink F :=
   { ((l.recordAttempt now).resetForReconnect now) with
       failCount := 0, graceDeadline := now + Conn.STARTUP_GRACE_MS }
 
-/-- One link of the pass: link, registration state, wire output. -/
-def hkOne (classic : Bool) (now : Nat) (l : FLink F) (i : Nat) (reg : Reg.Reg) :
+/-- The link after the reconnect branch, the socket re-creation having failed (`mark_for_recovery`
+fallback) or succeeded. -/
+def attempted (fails : Bool) (l : FLink F) (now : Nat) : FLink F :=
+  if fails then (l.recordAttempt now).markForRecovery else reconnected l now
+
+/-- The bind-failure injections left after the link was handled. -/
+def hkFbK (now : Nat) (fb : List Nat) (l : FLink F) : List Nat :=
+  if l.isTimedOut now && l.shouldAttemptReconnect now && fb.contains l.core.connId then fb.erase l.core.connId
+  else fb
+
+/-- One link of the pass: link, registration state, wire output (`fb`: pending bind-failure injections). -/
+def hkOne (classic : Bool) (now : Nat) (l : FLink F) (i : Nat) (reg : Reg.Reg) (fb : List Nat) :
     FLink F × Reg.Reg × List (Nat × Codec.Bytes) :=
   if l.isTimedOut now then
     if l.shouldAttemptReconnect now then
       match reg.pending with
       | some p =>
         if p = i then
-          ({ reconnected l now with core := { (reconnected l now).core with lastSent := some now } },
+          ({ attempted (fb.contains l.core.connId) l now with
+               core := { (attempted (fb.contains l.core.connId) l now).core with lastSent := some now } },
             (Reg.buildReg1For reg i now).1, [(l.core.connId, (Reg.buildReg1For reg i now).2)])
-        else (reconnected l now, reg, [])
+        else (attempted (fb.contains l.core.connId) l now, reg, [])
       | none =>
-        ({ reconnected l now with core := { (reconnected l now).core with lastSent := some now } },
+        ({ attempted (fb.contains l.core.connId) l now with
+             core := { (attempted (fb.contains l.core.connId) l now).core with lastSent := some now } },
           reg, [(l.core.connId, Reg.buildReg2 reg)])
     else (l, reg, [])
   else ((hkLive classic now l).1, reg, (hkLive classic now l).2)
 
 theorem hkLinksGo_cons (classic : Bool) (now : Nat) (l : FLink F) (rest : List (FLink F)) (i : Nat)
-    (reg : Reg.Reg) :
-    hkLinksGo classic now (l :: rest) i reg =
-      ((hkOne classic now l i reg).1 :: (hkLinksGo classic now rest (i + 1) (hkOne classic now l i reg).2.1).1,
-       (hkLinksGo classic now rest (i + 1) (hkOne classic now l i reg).2.1).2.1,
-       (hkOne classic now l i reg).2.2 ++ (hkLinksGo classic now rest (i + 1) (hkOne classic now l i reg).2.1).2.2) := by
+    (reg : Reg.Reg) (fb : List Nat) :
+    hkLinksGo classic now (l :: rest) i reg fb =
+      ((hkOne classic now l i reg fb).1 ::
+         (hkLinksGo classic now rest (i + 1) (hkOne classic now l i reg fb).2.1 (hkFbK now fb l)).1,
+       (hkLinksGo classic now rest (i + 1) (hkOne classic now l i reg fb).2.1 (hkFbK now fb l)).2.1,
+       (hkOne classic now l i reg fb).2.2 ++
+         (hkLinksGo classic now rest (i + 1) (hkOne classic now l i reg fb).2.1 (hkFbK now fb l)).2.2) := by
   rw [hkLinksGo]
-  unfold hkOne
+  unfold hkOne hkFbK attempted reconnected
   cases hto : l.isTimedOut now with
   | true =>
     simp only [if_true]
     cases hra : l.shouldAttemptReconnect now with
     | true =>
-      simp only [if_true]
-      cases hp : reg.pending with
-      | none => rfl
-      | some p =>
-        by_cases hpi : p = i
-        · simp only [hpi, if_true]; rfl
-        · simp only [hpi, if_false]; rfl
-    | false => simp only [Bool.false_eq_true, if_false]; rfl
+      simp only [if_true, Bool.true_and]
+      cases hf : fb.contains l.core.connId <;> simp only [Bool.false_eq_true, if_false, if_true] <;>
+      · cases hp : reg.pending with
+        | none => rfl
+        | some p =>
+          by_cases hpi : p = i
+          · simp only [hpi, if_true]; rfl
+          · simp only [hpi, if_false]; rfl
+    | false => simp only [Bool.false_eq_true, if_false, Bool.and_false, Bool.false_and]; rfl
   | false =>
-    simp only [Bool.false_eq_true, if_false]
+    simp only [Bool.false_eq_true, if_false, Bool.false_and]
     unfold hkLive
     cases h1 : l.needsKeepalive now with
     | true => simp only [if_true]
@@ -314,13 +329,15 @@ own contribution. -/
 structure KaStep (now : Nat) (l l' : FLink F) (w : List (Nat × Codec.Bytes)) : Prop where
   connId : l'.core.connId = l.core.connId
   change : l'.lastKeepaliveSent = l.lastKeepaliveSent ∨
+    -- cleared: a timed-out link whose socket re-creation failed is marked for recovery
+    l'.lastKeepaliveSent = none ∨
     (l'.lastKeepaliveSent = some now ∧ (l.core.connId, (l.keepalivePacket now).2) ∈ w)
   fresh : l.core.connected = true → l.isTimedOut now = false →
     ∃ t, l'.lastKeepaliveSent = some t ∧ now - t < 1000
 
 theorem KaStep.mono {now : Nat} {l l' : FLink F} {w w' : List (Nat × Codec.Bytes)}
     (h : KaStep now l l' w) (hw : ∀ x ∈ w, x ∈ w') : KaStep now l l' w' :=
-  ⟨h.connId, h.change.imp id (fun ⟨a, b⟩ => ⟨a, hw _ b⟩), h.fresh⟩
+  ⟨h.connId, h.change.imp id (Or.imp id fun ⟨a, b⟩ => ⟨a, hw _ b⟩), h.fresh⟩
 
 /-- The keepalive-typed datagrams for conn id `cid` in a wire list. -/
 def kaCount (cid : Nat) (w : List (Nat × Codec.Bytes)) : Nat :=
@@ -338,11 +355,27 @@ theorem reconnected_lks (l : FLink F) (now : Nat) :
   unfold reconnected FLink.resetForReconnect FLink.resetCoreState FLink.recordAttempt Conn.resetCore
   split <;> exact ⟨rfl, rfl⟩
 
-theorem hkOne_spec (classic : Bool) (now : Nat) (l : FLink F) (i : Nat) (reg : Reg.Reg) :
-    KaStep now l (hkOne classic now l i reg).1 (hkOne classic now l i reg).2.2 ∧
-    (∀ x ∈ (hkOne classic now l i reg).2.2, WireOrigin now [l] x) ∧
-    (∀ cid, kaCount cid (hkOne classic now l i reg).2.2 ≤ if l.core.connId == cid then 2 else 0) := by
-  have hrl := reconnected_lks l now
+theorem attempted_lks (fails : Bool) (l : FLink F) (now : Nat) :
+    ((attempted fails l now).lastKeepaliveSent = l.lastKeepaliveSent ∨
+      (attempted fails l now).lastKeepaliveSent = none) ∧
+    (attempted fails l now).core.connId = l.core.connId := by
+  cases fails
+  · exact ⟨Or.inl (reconnected_lks l now).1, (reconnected_lks l now).2⟩
+  · refine ⟨Or.inr rfl, ?_⟩
+    unfold attempted FLink.recordAttempt
+    simp only [if_true]
+    split <;> rfl
+
+theorem hkOne_spec (classic : Bool) (now : Nat) (l : FLink F) (i : Nat) (reg : Reg.Reg) (fb : List Nat) :
+    KaStep now l (hkOne classic now l i reg fb).1 (hkOne classic now l i reg fb).2.2 ∧
+    (∀ x ∈ (hkOne classic now l i reg fb).2.2, WireOrigin now [l] x) ∧
+    (∀ cid, kaCount cid (hkOne classic now l i reg fb).2.2 ≤ if l.core.connId == cid then 2 else 0) := by
+  have hrl : ((attempted (fb.contains l.core.connId) l now).lastKeepaliveSent = l.lastKeepaliveSent ∨
+      (attempted (fb.contains l.core.connId) l now).lastKeepaliveSent = none ∨
+      ((attempted (fb.contains l.core.connId) l now).lastKeepaliveSent = some now ∧
+        (l.core.connId, (l.keepalivePacket now).2) ∈ ([] : List (Nat × Codec.Bytes)))) ∧
+      (attempted (fb.contains l.core.connId) l now).core.connId = l.core.connId :=
+    ⟨(attempted_lks _ l now).1.imp id Or.inl, (attempted_lks _ l now).2⟩
   unfold hkOne
   cases hto : l.isTimedOut now with
   | true =>
@@ -353,7 +386,7 @@ theorem hkOne_spec (classic : Bool) (now : Nat) (l : FLink F) (i : Nat) (reg : R
       cases hp : reg.pending with
       | none =>
         dsimp only
-        refine ⟨⟨hrl.2, Or.inl hrl.1, fun _ h => by simp [hto] at h⟩, ?_, ?_⟩
+        refine ⟨⟨hrl.2, hrl.1.imp id (Or.imp id fun h => absurd h.2 (by simp)), fun _ h => by simp [hto] at h⟩, ?_, ?_⟩
         · intro x hx
           simp only [List.mem_cons, List.not_mem_nil, or_false] at hx
           subst hx
@@ -365,7 +398,7 @@ theorem hkOne_spec (classic : Bool) (now : Nat) (l : FLink F) (i : Nat) (reg : R
         dsimp only
         by_cases hpi : p = i
         · simp only [hpi, if_true]
-          refine ⟨⟨hrl.2, Or.inl hrl.1, fun _ h => by simp [hto] at h⟩, ?_, ?_⟩
+          refine ⟨⟨hrl.2, hrl.1.imp id (Or.imp id fun h => absurd h.2 (by simp)), fun _ h => by simp [hto] at h⟩, ?_, ?_⟩
           · intro x hx
             simp only [List.mem_cons, List.not_mem_nil, or_false] at hx
             subst hx
@@ -374,14 +407,14 @@ theorem hkOne_spec (classic : Bool) (now : Nat) (l : FLink F) (i : Nat) (reg : R
             have : Codec.getPacketTypeS (Reg.buildReg1For reg i now).2 = some 0x9200 := reg1_type _
             simp [kaCount, this]
         · simp only [hpi, if_false]
-          exact ⟨⟨hrl.2, Or.inl hrl.1, fun _ h => by simp [hto] at h⟩, by simp, by simp [kaCount]⟩
+          exact ⟨⟨hrl.2, hrl.1.imp id (Or.imp id fun h => absurd h.2 (by simp)), fun _ h => by simp [hto] at h⟩, by simp, by simp [kaCount]⟩
     | false =>
       simp only [Bool.false_eq_true, if_false]
       exact ⟨⟨rfl, Or.inl rfl, fun _ h => by simp [hto] at h⟩, by simp, by simp [kaCount]⟩
   | false =>
     simp only [Bool.false_eq_true, if_false]
     obtain ⟨h1, -, h3, h4, h5, h6⟩ := hkLive_spec classic now l
-    refine ⟨⟨h1, h5, fun hc _ => h6 hc⟩, ?_, ?_⟩
+    refine ⟨⟨h1, h5.imp id Or.inr, fun hc _ => h6 hc⟩, ?_, ?_⟩
     · intro x hx
       obtain ⟨rfl, hc⟩ := h3 x hx
       exact Or.inl ⟨l, by simp, rfl, hc, hto⟩
@@ -396,19 +429,20 @@ theorem hkOne_spec (classic : Bool) (now : Nat) (l : FLink F) (i : Nat) (reg : R
         simp [hcid]
 
 /-- **The per-link pass of housekeeping.** -/
-theorem hkLinksGo_spec (classic : Bool) (now : Nat) (ls : List (FLink F)) (i : Nat) (reg : Reg.Reg) :
-    (hkLinksGo classic now ls i reg).1.length = ls.length ∧
-    (∀ (j : Nat) l, ls[j]? = some l → ∃ l', (hkLinksGo classic now ls i reg).1[j]? = some l' ∧
-      KaStep now l l' (hkLinksGo classic now ls i reg).2.2) ∧
-    (∀ x ∈ (hkLinksGo classic now ls i reg).2.2, WireOrigin now ls x) ∧
-    (∀ cid, kaCount cid (hkLinksGo classic now ls i reg).2.2 ≤
+theorem hkLinksGo_spec (classic : Bool) (now : Nat) (ls : List (FLink F)) (i : Nat) (reg : Reg.Reg)
+    (fb : List Nat) :
+    (hkLinksGo classic now ls i reg fb).1.length = ls.length ∧
+    (∀ (j : Nat) l, ls[j]? = some l → ∃ l', (hkLinksGo classic now ls i reg fb).1[j]? = some l' ∧
+      KaStep now l l' (hkLinksGo classic now ls i reg fb).2.2) ∧
+    (∀ x ∈ (hkLinksGo classic now ls i reg fb).2.2, WireOrigin now ls x) ∧
+    (∀ cid, kaCount cid (hkLinksGo classic now ls i reg fb).2.2 ≤
       2 * ls.countP (·.core.connId == cid)) := by
-  induction ls generalizing i reg with
+  induction ls generalizing i reg fb with
   | nil => simp [hkLinksGo, kaCount]
   | cons l rest ih =>
     rw [hkLinksGo_cons]
-    obtain ⟨o1, o2, o3⟩ := hkOne_spec classic now l i reg
-    obtain ⟨r1, r2, r3, r4⟩ := ih (i + 1) (hkOne classic now l i reg).2.1
+    obtain ⟨o1, o2, o3⟩ := hkOne_spec classic now l i reg fb
+    obtain ⟨r1, r2, r3, r4⟩ := ih (i + 1) (hkOne classic now l i reg fb).2.1 (hkFbK now fb l)
     dsimp only
     refine ⟨by simp [r1], ?_, ?_, ?_⟩
     · intro j a ha
@@ -471,7 +505,7 @@ def hkSends (ls1 : List (FLink F)) (reg2 : Reg.Reg) (now : Nat) : Reg.DriverSend
 
 /-- The links and registration state after the per-link pass. -/
 def hkMid (s : Sys F) (now : Nat) : List (FLink F) × Reg.Reg × List (Nat × Codec.Bytes) :=
-  hkLinksGo s.cfg.classic now (hkPre s now).2 0 (hkPre s now).1
+  hkLinksGo s.cfg.classic now (hkPre s now).2 0 (hkPre s now).1 s.failBind
 
 theorem handleHousekeeping_links (s : Sys F) (now : Nat) :
     (handleHousekeeping s now).1.links =
@@ -613,7 +647,7 @@ theorem handleHousekeeping_spec (s : Sys F) (now : Nat) :
     (∀ cid, kaCount cid (handleHousekeeping s now).2.wire ≤ 2 * s.links.countP (·.core.connId == cid)) := by
   rw [handleHousekeeping_links, handleHousekeeping_wire]
   obtain ⟨p1, p2⟩ := hkPre_spec s now
-  obtain ⟨m1, m2, m3, m4⟩ := hkLinksGo_spec s.cfg.classic now (hkPre s now).2 0 (hkPre s now).1
+  obtain ⟨m1, m2, m3, m4⟩ := hkLinksGo_spec s.cfg.classic now (hkPre s now).2 0 (hkPre s now).1 s.failBind
   have ht := regDriver_types
     (Reg.updateActiveConnections (hkMid s now).2.1 ((hkMid s now).1.map (·.core.connected))) now
   generalize hsd : hkSends (hkMid s now).1 (hkMid s now).2.1 now = sends at *
@@ -638,7 +672,7 @@ theorem handleHousekeeping_spec (s : Sys F) (now : Nat) :
     have hk' := graceOnly_kaStep hg hk
     refine ⟨by rw [hs3.2, hs2.2]; exact hk'.connId, ?_, ?_⟩
     · rw [hs3.1, hs2.1]
-      refine hk'.change.imp id (fun ⟨h1, h2⟩ => ⟨h1, ?_⟩)
+      refine hk'.change.imp id (Or.imp id fun ⟨h1, h2⟩ => ⟨h1, ?_⟩)
       exact List.mem_append_left _ (List.mem_append_left _ h2)
     · intro hc hto
       rw [hs3.1, hs2.1]
